@@ -47,6 +47,7 @@ Inductive outcome :=
 | Returned
 | RaisedTimeout (c : Z)                      (* scp_connection.TimeoutError, .packet = command c *)
 | RaisedFatal (rc : Z) (c : option Z)        (* FatalReturnCodeError(rc, packet of c or None) *)
+| RaisedKeyError (rc : Z)                    (* FatalReturnCodeError.__init__ itself fails: see fatal_outcome *)
 | NeedEvent                                  (* the event list ran out while the loop was still running *)
 | SeqSearchDiverges.                         (* `while seq in outstanding_packets` can never exit *)
 
@@ -227,11 +228,18 @@ Inductive post_result :=
 | Continue (k : conn) (b : bstate)
 | Stop (oc : outcome) (k : conn).
 
+(* raise FatalReturnCodeError(rc, packet): the constructor looks a *known* code up in
+   FATAL_SCP_RETURN_CODES (KeyError if it is not there); an unknown code takes the ValueError branch and
+   the error is raised with the raw integer. *)
+Definition fatal_outcome (rc : Z) (c : option Z) : outcome :=
+  if existsb (Z.eqb rc) all_return_codes && negb (existsb (Z.eqb rc) fatal_codes)
+  then RaisedKeyError rc else RaisedFatal rc c.
+
 Definition post (cf : config) (ev : event) (k : conn) (b : bstate) : list output * post_result :=
   let r := recv_loop (k_buf k ++ ev_data ev) (b_out b) (b_cbs b) in
   match r_fatal r with
   | Some (rc, c) =>
-      (r_outputs r, Stop (RaisedFatal rc c)
+      (r_outputs r, Stop (fatal_outcome rc c)
                          {| k_seq := k_seq k; k_ntx := k_ntx k; k_now := ev_time ev; k_buf := r_left r |})
   | None =>
       let s := scan cf (ev_time ev) (k_ntx k) (r_out r) in
@@ -310,6 +318,7 @@ Definition outcome_eqb (a b : outcome) : bool :=
   | RaisedTimeout c, RaisedTimeout c' => c =? c'
   | RaisedFatal rc None, RaisedFatal rc' None => rc =? rc'
   | RaisedFatal rc (Some c), RaisedFatal rc' (Some c') => (rc =? rc') && (c =? c')
+  | RaisedKeyError rc, RaisedKeyError rc' => rc =? rc'
   | NeedEvent, NeedEvent => true
   | SeqSearchDiverges, SeqSearchDiverges => true
   | _, _ => false
